@@ -162,6 +162,11 @@ func (a *AuthProc) Log() string {
 
 // StartAuth launches the real rdpgw-auth (built with the PAM stub).
 func (r *Runner) StartAuth(users map[string]string) (*AuthProc, error) {
+	return r.StartAuthAt("", users)
+}
+
+// StartAuthAt starts the service on a given socket path ("" = a fresh one).
+func (r *Runner) StartAuthAt(sockPath string, users map[string]string) (*AuthProc, error) {
 	dir, err := os.MkdirTemp(r.Work, "auth-")
 	if err != nil {
 		return nil, err
@@ -181,6 +186,9 @@ func (r *Runner) StartAuth(users map[string]string) (*AuthProc, error) {
 	conf := filepath.Join(dir, "rdpgw-auth.yaml")
 	os.WriteFile(conf, []byte(sb.String()), 0600)
 	sock := filepath.Join(dir, "a.sock")
+	if sockPath != "" {
+		sock = sockPath
+	}
 	a := &AuthProc{Sock: sock, Dir: dir, Stderr: &strings.Builder{}, exited: make(chan struct{})}
 	cmd := exec.Command(r.BinAuth, "-s", sock, "-c", conf, "-n", "rdpgw")
 	cmd.Dir = dir
@@ -486,6 +494,7 @@ type Browser struct {
 	I       *Inst
 	LoginID string // appended to the IdP authorization request
 	Local6  bool   // talk to the gateway over the IPv6 loopback
+	extra   [][2]string
 }
 
 func (i *Inst) NewBrowser(localIP, xff string) *Browser {
@@ -514,6 +523,13 @@ type Hop struct {
 	Header   http.Header
 }
 
+// GetWith is Get with extra request headers.
+func (b *Browser) GetWith(u string, hdrs [][2]string) (*Hop, error) {
+	b.extra = hdrs
+	defer func() { b.extra = nil }()
+	return b.Get(u)
+}
+
 func (b *Browser) Get(u string) (*Hop, error) {
 	toGW := strings.HasPrefix(u, b.I.BaseURL())
 	if b.Local6 && toGW {
@@ -525,6 +541,9 @@ func (b *Browser) Get(u string) (*Hop, error) {
 	}
 	if b.XFF != "" && toGW {
 		req.Header.Set("X-Forwarded-For", b.XFF)
+	}
+	for _, h := range b.extra {
+		req.Header.Set(h[0], h[1])
 	}
 	resp, err := b.C.Do(req)
 	if err != nil {
